@@ -5,7 +5,8 @@
 From Coq Require Import ZArith NArith String List.
 Import ListNotations.
 From TP Require Import Base.PyVal Base.PyEq Fields.FieldAst Fields.SetChain Struct.Instance
-     Ser.Trusted Ser.TrustedProofs Ser.Fast Ser.FastProofs.
+     Ser.Trusted Ser.TrustedProofs Ser.Fast Ser.FastProofs
+     Ser.FastState Ser.FastStateProofs Ser.FastRegularProofs Ser.FastHistoryProofs.
 
 Section C10.
   Variable re_match : N -> pystr -> bool.          (* oracle: re.match *)
@@ -58,10 +59,79 @@ Theorem C10_from_trusted : forall re_match (e : env) c kw x,
     from_trusted c kw = x.
 Proof. exact from_trusted_equals_validated. Qed.
 
+(* ------------------------------------------------------------------ fourth clause over histories of a class family
+   (Ser/FastState.v: which function `K.serialize` is depends on the order of class definitions,
+   create_serializer calls, instantiations and - through the per-field caches of Array/Set - serializations) *)
+Section C10_history.
+  Variable re_match : N -> pystr -> bool.
+  Variable sser oser ofast : N -> pyval -> res pyval.
+  Variable e : tenv.                               (* flattened declarations of the family *)
+  Variable ps : list (pystr * pystr).              (* child -> parent *)
+
+  (* Once a constructor of class cn has returned, cn keeps a serializer of its own through every later
+     operation (so an instance never falls back to an inherited closure or the stub). *)
+  Theorem C10_fast_instantiated_keeps_serializer : forall st tr cn a rest,
+      (tr = false \/ a <> []) ->
+      snd (run_op sser ofast e ps st (HInst tr (PStruct cn a))) = Ok PNone ->
+      alist_get (fs_own (fst (run_ops sser ofast e ps (fst (run_op sser ofast e ps st (HInst tr (PStruct cn a)))) rest))) cn
+      <> None.
+  Proof. exact (instantiated_keeps_serializer sser ofast e ps). Qed.
+
+  (* Late binding: in ANY state in which the classes reachable from k have serializers of their own and the
+     Array/Set caches hold current functions, the closure of k returns what the order-free reading returns
+     (each class serialized by its own declaration, with its own flags) and keeps the caches current. *)
+  Theorem C10_fast_state_independent : forall own cf n k,
+      closed e own cf k ->
+      forall ch v, fresh e ps own ch ->
+                   exists ch', run_gen sser ofast e ps own n ch k (cf k) v = (ch', sfast sser ofast e cf n k v) /\
+                               fresh e ps own ch'.
+  Proof. exact (run_gen_sim sser ofast e ps). Qed.
+
+  (* For EVERY sequence of create_serializer calls (any flags) and instantiations, in any order, followed by
+     any sequence of serializations of instances whose reachable classes have their own serializers: each
+     x.serialize() returns the order-free document for the flags the classes ended up with. *)
+  Theorem C10_fast_settled_history : forall ops sers,
+      forallb (fun op => negb (is_ser op)) ops = true ->
+      let st1 := fst (run_ops sser ofast e ps st0 ops) in
+      (forall op, In op sers -> good_ser e (fs_own st1) op) ->
+      snd (run_ops sser ofast e ps st1 sers) = map (expected sser ofast e (fs_own st1)) sers.
+  Proof. exact (settled_history sser ofast e ps). Qed.
+
+  (* Class level: for a safe class and an instance listed in declaration order, the order-free fast document
+     (default flags) is the regular document. *)
+  Theorem C10_fast_class :
+      (forall id x w, sser id x = Ok w -> is_none w = false) ->
+      forall n cn v d,
+      safe_class e n cn = true -> ord_inst e n cn v ->
+      ser_regular re_match sser oser e n [] cn v = Ok d ->
+      sfast sser ofast e (fun _ => dconf) n cn v = Ok d.
+  Proof. exact (fast_equals_regular re_match sser oser ofast e). Qed.
+
+  (* End to end: any order of default-flag create_serializer calls and instantiations over a family with
+     inheritance; afterwards x.serialize() of a safe instance is exactly the regular document. *)
+  Theorem C10_fast_history :
+      (forall id x w, sser id x = Ok w -> is_none w = false) ->
+      forall ops cn a d,
+      forallb (fun op => negb (is_ser op)) ops = true ->
+      forallb default_op ops = true ->
+      let st1 := fst (run_ops sser ofast e ps st0 ops) in
+      closedb e (fs_own st1) cn = true ->
+      safe_class e HFUEL cn = true ->
+      ord_inst e HFUEL cn (PStruct cn a) ->
+      ser_regular re_match sser oser e HFUEL [] cn (PStruct cn a) = Ok d ->
+      snd (run_ops sser ofast e ps st1 [HSer (PStruct cn a)]) = [Ok d].
+  Proof. exact (fast_history_equals_regular re_match sser oser ofast e ps). Qed.
+End C10_history.
+
 Print Assumptions C10_trusted_partial.
 Print Assumptions C10_ineligible.
 Print Assumptions C10_fast_value_partial.
 Print Assumptions C10_from_trusted.
+Print Assumptions C10_fast_instantiated_keeps_serializer.
+Print Assumptions C10_fast_state_independent.
+Print Assumptions C10_fast_settled_history.
+Print Assumptions C10_fast_class.
+Print Assumptions C10_fast_history.
 
 (* ------------------------------------------------------------------ refutations (defects of the code) *)
 
@@ -140,103 +210,6 @@ Example C10_nonvacuous :
   create_serializer env_ok 3 (s2p "P") = Ok tt.
 Proof. repeat split; vm_compute; reflexivity. Qed.
 
-(* ---- the tie to the source of the classifier, re-checked by the kernel on every run --------------------
-   Gen/TrustedSrc.v is re-generated from typedpy/serialization/serialization.py (harness/genmods/py2v_trusted.py):
-   _is_mapper_simple, _is_optional_anyof, _extract_non_nonefield_from_optional, _structure_simplicity_level,
-   _get_enum_mapping, the tuple _valid_classes_for_trusted_deserialization and the subclass table of the field
-   classes (read from the class statements).  For EVERY class environment the classifier of the source NOW is
-   the hand-written classifier of Ser/Trusted.v on which the theorems above are proved. *)
-From TP Require Import Base.PyOps Base.PyOps2 Base.PyObj Base.PyOpsFields Gen.TrustedSrc Ser.TrustedSrcProofs.
-
-Theorem C10_src_mapper_simple :
-  forall (other_obj : N -> bool -> pyval) (chain : list pyval) (e : tenv) 
-           (cn : pystr) (c : tclass),
-         chain_ok chain = true ->
-         find_tclass e cn = Some c ->
-         src_is_mapper_simple (class_heap other_obj chain e) (ref cn) =
-         Ok (PBool (mapper_simple (t_mapper c))).
-Proof. exact src_mapper_simple_eq. Qed.
-
-Theorem C10_src_optional_anyof_opt :
-  forall (other_obj : N -> bool -> pyval) (h : heap) (nf : bool) (f : tfield),
-         tf_wf other_obj f = true ->
-         src_is_optional_anyof h (tf_py other_obj (TOpt nf f)) = Ok (PBool true).
-Proof. exact src_optional_anyof_opt. Qed.
-
-Theorem C10_src_optional_anyof_union :
-  forall (other_obj : N -> bool -> pyval) (h : heap) (ls : list leaf),
-         src_is_optional_anyof h (tf_py other_obj (TUnion ls)) = Ok (PBool (union_optional ls)).
-Proof. exact src_optional_anyof_union. Qed.
-
-(* fields[0] in both branches: the source text itself *)
-Theorem C10_src_extract_opt :
-  forall (other_obj : N -> bool -> pyval) (h : heap) (nf : bool) (f : tfield),
-         tf_wf other_obj f = true ->
-         src_extract_non_nonefield_from_optional h (tf_py other_obj (TOpt nf f)) =
-         Ok (tf_py other_obj (if nf then none_leaf else f)).
-Proof. exact src_extract_opt. Qed.
-
-(* _structure_simplicity_level = level_of *)
-Theorem C10_src_level :
-  forall (other_obj : N -> bool -> pyval) (chain : list pyval) (e : tenv) 
-           (fuel : nat) (cn : pystr),
-         chain_ok chain = true ->
-         env_wf other_obj e = true ->
-         level_of e fuel cn <> Raise Unmodelled ->
-         src_structure_simplicity_level fuel (class_heap other_obj chain e) (ref cn) =
-         level_res (level_of e fuel cn).
-Proof. exact src_level_eq. Qed.
-
-(* the classifier's verdict = eligible *)
-Theorem C10_src_eligible :
-  forall (other_obj : N -> bool -> pyval) (chain : list pyval) (e : tenv) 
-           (fuel : nat) (cn : pystr),
-         chain_ok chain = true ->
-         env_wf other_obj e = true ->
-         level_of e fuel cn <> Raise Unmodelled ->
-         eligible e fuel cn =
-         match src_structure_simplicity_level fuel (class_heap other_obj chain e) (ref cn) with
-         | Ok v => py_truthy v
-         | Raise _ => false
-         end.
-Proof. exact src_eligible_eq. Qed.
-
-(* _get_enum_mapping (plain Enum fields first, then Optional[Enum]) *)
-Theorem C10_src_enum_mapping :
-  forall (other_obj : N -> bool -> pyval) (chain : list pyval) (e : tenv) 
-           (cn : pystr) (c : tclass),
-         find_tclass e cn = Some c ->
-         fields_wf other_obj (t_fields c) = true ->
-         nodupb (map f_name (t_fields c)) = true ->
-         src_get_enum_mapping (class_heap other_obj chain e) (ref cn) =
-         targets_res (enum_targets (enum_order (t_fields c))).
-Proof. exact src_enum_mapping_eq. Qed.
-
-Theorem C10_src_enum_order_same :
-  forall fs : list tfd,
-         match enum_targets fs with
-         | Ok a =>
-             match enum_targets (enum_order fs) with
-             | Ok b => Permutation.Permutation a b
-             | Raise _ => False
-             end
-         | Raise x => match enum_targets (enum_order fs) with
-                      | Ok _ => False
-                      | Raise y => x = y
-                      end
-         end.
-Proof. exact enum_order_same. Qed.
-
-Print Assumptions C10_src_mapper_simple.
-Print Assumptions C10_src_optional_anyof_opt.
-Print Assumptions C10_src_optional_anyof_union.
-Print Assumptions C10_src_extract_opt.
-Print Assumptions C10_src_level.
-Print Assumptions C10_src_eligible.
-Print Assumptions C10_src_enum_mapping.
-Print Assumptions C10_src_enum_order_same.
-
-(* ======================================================================================================
    the tie to the source of fast_serialization.py (generated layer), appended from the contributor's file *)
 (* Property C10, second half (fast serialization): the tie to the source of typedpy/serialization/fast_serialization.py,
    re-checked by the kernel on every run.  Ready to be appended to Props/C10.v.
@@ -385,3 +358,168 @@ Print Assumptions C10_fast_src_compact.
 Print Assumptions C10_fast_src_init.
 Print Assumptions C10_fast_src_heap0.
 Print Assumptions C10_fast_src_heap1.
+=======
+(* ------------------------------------------------------------------ histories: refutations and non-vacuity *)
+
+Definition strf : tfield := TLeaf (LPrim (FString no_strc)).
+(* class P: a ; class C(P): user_name, TO_CAMELCASE ; class H: n2, es = Array[C] *)
+Definition fam_env : tenv :=
+  [mk "P" [fd "a" intf] MapNone;
+   mk "C" [fd "a" intf; fd "user_name" strf] MapCamel;
+   mk "H" [fd "n2" intf; fd "es" (TArray (TRef (s2p "C")))] MapNone;
+   mk "G" [fd "n2" intf; fd "p" (TRef (s2p "P"))] MapNone].
+Definition fam_ps : list (pystr * pystr) := [(s2p "C", s2p "P")].
+Definition cinst : pyval := PStruct (s2p "C") [(s2p "a", PNum (NInt 2)); (s2p "user_name", PStr (s2p "joe"))].
+Definition hinst : pyval := PStruct (s2p "H") [(s2p "n2", PNum (NInt 7)); (s2p "es", PList [cinst])].
+Definition hempty : pyval := PStruct (s2p "H") [(s2p "n2", PNum (NInt 5)); (s2p "es", PList [])].
+Definition cdoc : pyval := PDict [(PStr (s2p "a"), PNum (NInt 2)); (PStr (s2p "userName"), PStr (s2p "joe"))].
+Definition hdoc : pyval := PDict [(PStr (s2p "n2"), PNum (NInt 7)); (PStr (s2p "es"), PList [cdoc])].
+
+(* Array.serialize freezes `C.serialize` at its first call.  create(P); H(es=[]).serialize() -- C has no
+   serializer of its own yet, so the frozen function is P's closure -- then H(es=[C(...)]).serialize():
+   the Child is emitted with the Parent's fields only.  (typedpy today: finding C10-fast-stale-collection-serializer) *)
+Example C10_fast_history_refuted :
+  nth 4 (snd (run_ops no_o no_o fam_env fam_ps st0
+                      [HCreate (s2p "P") false false; HInst false hempty; HSer hempty; HInst false hinst; HSer hinst]))
+      (Raise Unmodelled)
+  = Ok (PDict [(PStr (s2p "n2"), PNum (NInt 7)); (PStr (s2p "es"), PList [dict1 "a" (PNum (NInt 2))])]) /\
+  ser_regular no_re no_o no_o fam_env HFUEL [] (s2p "H") hinst = Ok hdoc.
+Proof. split; vm_compute; reflexivity. Qed.
+
+(* a field declared with class P holding an instance of the subclass C: the fast path applies P's closure,
+   the regular path serializes a C.  (typedpy today: finding C10-fast-subclass-instance-in-base-field) *)
+Definition ginst : pyval := PStruct (s2p "G") [(s2p "n2", PNum (NInt 1)); (s2p "p", cinst)].
+Example C10_fast_subclass_refuted :
+  sfast no_o no_o fam_env (fun _ => dconf) HFUEL (s2p "G") ginst
+  = Ok (PDict [(PStr (s2p "n2"), PNum (NInt 1)); (PStr (s2p "p"), dict1 "a" (PNum (NInt 2)))]) /\
+  ser_regular no_re no_o no_o fam_env HFUEL [] (s2p "G") ginst
+  = Ok (PDict [(PStr (s2p "n2"), PNum (NInt 1)); (PStr (s2p "p"), cdoc)]).
+Proof. split; vm_compute; reflexivity. Qed.
+
+(* non-vacuity of C10_fast_history, on the order that an early-binding implementation gets wrong: the holder's
+   serializer is created while C still inherits P's closure, C is instantiated afterwards *)
+Definition ops_ok : list hop := [HCreate (s2p "P") false false; HCreate (s2p "H") false false; HInst false hinst].
+Example C10_fast_history_nonvacuous :
+  forallb (fun op => negb (is_ser op)) ops_ok = true /\
+  forallb default_op ops_ok = true /\
+  closedb fam_env (fs_own (fst (run_ops no_o no_o fam_env fam_ps st0 ops_ok))) (s2p "H") = true /\
+  safe_class fam_env HFUEL (s2p "H") = true /\
+  ord_inst fam_env HFUEL (s2p "H") hinst /\
+  ser_regular no_re no_o no_o fam_env HFUEL [] (s2p "H") hinst = Ok hdoc /\
+  snd (run_ops no_o no_o fam_env fam_ps (fst (run_ops no_o no_o fam_env fam_ps st0 ops_ok)) [HSer hinst]) = [Ok hdoc].
+Proof.
+  repeat split; try (vm_compute; reflexivity).
+  apply al_take; [reflexivity|exact I|]. apply al_take; [reflexivity| |apply al_nil].
+  constructor; [|constructor]. split; [reflexivity|].
+  apply al_take; [reflexivity|exact I|]. apply al_take; [reflexivity|exact I|apply al_nil].
+Qed.
+
+(* _get_enum_mapping puts the plain Enum[E] fields before the Optional ones: with a = Optional[Enum[Color]],
+   b = Enum[Color] and the document {"a": {"x": 1}, "b": "NOPE"} the member lookup of b fails first (KeyError),
+   not the hashing of a's value (TypeError) *)
+Definition env_eo : tenv :=
+  [mk "C" [fd "a" (TOpt false (TLeaf (LEnum (s2p "Color") color false))); fd "b" (TLeaf (LEnum (s2p "Color") color false))]
+      MapNone].
+Example C10_enum_mapping_order :
+  deser_trusted no_re no_o no_o env_eo 3 false (s2p "C")
+                (PDict [(PStr (s2p "a"), dict1 "x" (PNum (NInt 1))); (PStr (s2p "b"), PStr (s2p "NOPE"))])
+  = Raise KeyError.
+Proof. vm_compute. reflexivity. Qed.
+
+(* ---- the tie to the source of the classifier, re-checked by the kernel on every run --------------------
+   Gen/TrustedSrc.v is re-generated from typedpy/serialization/serialization.py (harness/genmods/py2v_trusted.py):
+   _is_mapper_simple, _is_optional_anyof, _extract_non_nonefield_from_optional, _structure_simplicity_level,
+   _get_enum_mapping, the tuple _valid_classes_for_trusted_deserialization and the subclass table of the field
+   classes (read from the class statements).  For EVERY class environment the classifier of the source NOW is
+   the hand-written classifier of Ser/Trusted.v on which the theorems above are proved. *)
+From TP Require Import Base.PyOps Base.PyOps2 Base.PyObj Base.PyOpsFields Gen.TrustedSrc Ser.TrustedSrcProofs.
+
+Theorem C10_src_mapper_simple :
+  forall (other_obj : N -> bool -> pyval) (chain : list pyval) (e : tenv) 
+           (cn : pystr) (c : tclass),
+         chain_ok chain = true ->
+         find_tclass e cn = Some c ->
+         src_is_mapper_simple (class_heap other_obj chain e) (ref cn) =
+         Ok (PBool (mapper_simple (t_mapper c))).
+Proof. exact src_mapper_simple_eq. Qed.
+
+Theorem C10_src_optional_anyof_opt :
+  forall (other_obj : N -> bool -> pyval) (h : heap) (nf : bool) (f : tfield),
+         tf_wf other_obj f = true ->
+         src_is_optional_anyof h (tf_py other_obj (TOpt nf f)) = Ok (PBool true).
+Proof. exact src_optional_anyof_opt. Qed.
+
+Theorem C10_src_optional_anyof_union :
+  forall (other_obj : N -> bool -> pyval) (h : heap) (ls : list leaf),
+         src_is_optional_anyof h (tf_py other_obj (TUnion ls)) = Ok (PBool (union_optional ls)).
+Proof. exact src_optional_anyof_union. Qed.
+
+(* fields[0] in both branches: the source text itself *)
+Theorem C10_src_extract_opt :
+  forall (other_obj : N -> bool -> pyval) (h : heap) (nf : bool) (f : tfield),
+         tf_wf other_obj f = true ->
+         src_extract_non_nonefield_from_optional h (tf_py other_obj (TOpt nf f)) =
+         Ok (tf_py other_obj (if nf then none_leaf else f)).
+Proof. exact src_extract_opt. Qed.
+
+(* _structure_simplicity_level = level_of *)
+Theorem C10_src_level :
+  forall (other_obj : N -> bool -> pyval) (chain : list pyval) (e : tenv) 
+           (fuel : nat) (cn : pystr),
+         chain_ok chain = true ->
+         env_wf other_obj e = true ->
+         level_of e fuel cn <> Raise Unmodelled ->
+         src_structure_simplicity_level fuel (class_heap other_obj chain e) (ref cn) =
+         level_res (level_of e fuel cn).
+Proof. exact src_level_eq. Qed.
+
+(* the classifier's verdict = eligible *)
+Theorem C10_src_eligible :
+  forall (other_obj : N -> bool -> pyval) (chain : list pyval) (e : tenv) 
+           (fuel : nat) (cn : pystr),
+         chain_ok chain = true ->
+         env_wf other_obj e = true ->
+         level_of e fuel cn <> Raise Unmodelled ->
+         eligible e fuel cn =
+         match src_structure_simplicity_level fuel (class_heap other_obj chain e) (ref cn) with
+         | Ok v => py_truthy v
+         | Raise _ => false
+         end.
+Proof. exact src_eligible_eq. Qed.
+
+(* _get_enum_mapping (plain Enum fields first, then Optional[Enum]) *)
+Theorem C10_src_enum_mapping :
+  forall (other_obj : N -> bool -> pyval) (chain : list pyval) (e : tenv) 
+           (cn : pystr) (c : tclass),
+         find_tclass e cn = Some c ->
+         fields_wf other_obj (t_fields c) = true ->
+         nodupb (map f_name (t_fields c)) = true ->
+         src_get_enum_mapping (class_heap other_obj chain e) (ref cn) =
+         targets_res (enum_targets (enum_order (t_fields c))).
+Proof. exact src_enum_mapping_eq. Qed.
+
+Theorem C10_src_enum_order_same :
+  forall fs : list tfd,
+         match enum_targets fs with
+         | Ok a =>
+             match enum_targets (enum_order fs) with
+             | Ok b => Permutation.Permutation a b
+             | Raise _ => False
+             end
+         | Raise x => match enum_targets (enum_order fs) with
+                      | Ok _ => False
+                      | Raise y => x = y
+                      end
+         end.
+Proof. exact enum_order_same. Qed.
+
+Print Assumptions C10_src_mapper_simple.
+Print Assumptions C10_src_optional_anyof_opt.
+Print Assumptions C10_src_optional_anyof_union.
+Print Assumptions C10_src_extract_opt.
+Print Assumptions C10_src_level.
+Print Assumptions C10_src_eligible.
+Print Assumptions C10_src_enum_mapping.
+Print Assumptions C10_src_enum_order_same.
+
+(* ===============================================================================================
